@@ -72,7 +72,7 @@ HOSTS = [
 ]
 HOSTS_HOSTILE = [
     "a b", "a@b", "a:b", "a/b", "a?b", "a#b", "a%zzb", "a%2", "[::1]", "[]", "[", "]", "a[b]",
-    "\u2100.com", "a\u3002b", "é" * 64 + ".com", "xn--a", "-a-", "a\x00b", "a\tb", "%", "a%25b",
+    "\u2100.com", "a\u3002b", "\uff41\uff3b\uff42\uff3d", "a\uff3bb", "\uff3b::1\uff3d", "a\uff3db", "\ufe5bx\ufe5c", "a\u2048b", "é" * 64 + ".com", "xn--a", "-a-", "a\x00b", "a\tb", "%", "a%25b",
     "v1.x", "::1%", "1::2::3", ":", "@", "a\\b", "A" * 70,
 ]
 USERS = ["u", "user", "User%41", "us er", "u:s", "u@s", "ю", "", "a/b", "%7e", "a%2Fb", "+", "u%", "a[b]"]
@@ -160,6 +160,14 @@ class Opaque:
         return "<Opaque>"
 
 
+class IntSub(int):
+    """An int subclass (enums, counters): documented as accepted wherever int is."""
+
+
+class FloatSub(float):
+    """A float subclass."""
+
+
 class StrSub(str):
     """A str subclass (documented as accepted wherever str is)."""
 
@@ -214,6 +222,12 @@ def materialise(spec, slots):
             return memoryview(v.encode("latin-1"))
         if t == "strsub":
             return StrSub(v)
+        if t == "intsub":
+            return IntSub(int(v))
+        if t == "bigint":
+            return int(v)
+        if t == "floatsub":
+            return FloatSub(float(v))
         if t == "istr":
             return multidict.istr(v)
         if t == "split":
@@ -835,7 +849,7 @@ class Atoms:
             base = (sch + ":" if sch else "") + "//" + self.authority(rng)
             self.urls += [base, base + "/"]
 
-    FUZZ_ALPHABET = "a1b.-_~%:@[]!$&'()*+,;= \u00e9\u3002/?#\\0"
+    FUZZ_ALPHABET = "a1b.-_~%:@[]!$&'()*+,;= \u00e9\u3002/?#\\0\uff3b\uff3d\uff1a\uff20\uff0f\uff05\u2100"
 
     def fuzz(self, rng, lo=1, hi=8):
         """A short random string over a delimiter-heavy alphabet (input-dimension sampling)."""
@@ -901,8 +915,13 @@ class Atoms:
         r = rng.random()
         if r < 0.55:
             return rng.choice(self.qvals)
-        if r < 0.65:
+        if r < 0.62:
             return rng.choice([0, 1, -5, 10 ** 20])
+        if r < 0.65:
+            # int / float subclasses and very large magnitudes (beyond float range, beyond 4300 digits)
+            return rng.choice([{"$": "intsub", "v": "7"}, {"$": "intsub", "v": str(2 ** 1024)}, {"$": "intsub", "v": "-" + "9" * 400},
+                               {"$": "bigint", "v": str(2 ** 1024)}, {"$": "bigint", "v": "1" + "0" * 5000}, {"$": "intsub", "v": "1" + "0" * 5000},
+                               {"$": "floatsub", "v": "1.5"}, {"$": "floatsub", "v": "inf"}, {"$": "floatsub", "v": "1e308"}])
         if r < 0.72:
             return rng.choice([1.5, 0.0, -2.25, 1e300])
         if r < 0.72 + self.hostile * 0.4:
